@@ -336,3 +336,66 @@ Proof.
   - rewrite HC, Hm. lia.
   - apply Z.eqb_eq. lia.
 Qed.
+
+(** The second phase only ADDS simulated entries to the ones the first phase disabled (a
+    candidate that re-enables one fails the count check of the innermost callback): every
+    bitmap pair of the space keeps [snd p1]'s disabled entries disabled. *)
+Fixpoint ft (m q : list bool) : nat :=
+  match m, q with
+  | x :: m', y :: q' => ((if (negb x && y)%bool then 1 else 0) + ft m' q')%nat
+  | _, _ => O
+  end.
+
+Lemma count_hamming_ft : forall m q, length m = length q ->
+  (count_true m + 2 * ft m q = count_true q + hamming m q)%nat.
+Proof.
+  induction m as [|x m IH]; intros [|y q] L; cbn [length] in L; try discriminate; [reflexivity|].
+  rewrite !count_true_cons. cbn [ft hamming]. specialize (IH q ltac:(lia)).
+  destruct x; destruct y; cbn [negb andb Bool.eqb]; lia.
+Qed.
+
+Lemma ft_zero_nth : forall m q i, length m = length q -> ft m q = O ->
+  nth i m true = false -> nth i q true = false.
+Proof.
+  induction m as [|x m IH]; intros [|y q] i L Z N; cbn [length] in L; try discriminate.
+  - destruct i; discriminate.
+  - cbn [ft] in Z. destruct i as [|i]; cbn [nth] in *.
+    + subst x. destruct y; [cbn in Z; discriminate|reflexivity].
+    + apply (IH q i); [lia| |exact N]. destruct (negb x && y)%bool; [discriminate|exact Z].
+Qed.
+
+Theorem phase2_keeps_first_phase : forall es cs maxdist p1 e m i,
+  In (e, m) (phase2_space es cs maxdist p1) ->
+  nth i m true = false -> nth i (snd p1) true = false.
+Proof.
+  intros es cs maxdist p1 e m i H N.
+  apply phase2_space_iff in H. destruct H as [_ [_ [EB [Lm [Hm Bal]]]]].
+  unfold bm_balanced in Bal. cbn [fst snd] in Bal. apply Z.eqb_eq in Bal. unfold p2_bd in *.
+  pose proof (count_hamming_ft m (snd p1) Lm) as K.
+  apply (ft_zero_nth m (snd p1) i Lm); [|exact N]. lia.
+Qed.
+
+(** ... so the condition on the simulated side of the budget theorem always holds: *)
+Theorem search_result_unrelated_pair_budget' : forall es cs maxdist d p cs1 c cs2 es1 e es2,
+  In (d, p) (search_results es cs maxdist) ->
+  Z.of_nat (length cs + length es) * (2 * BIGN + 2) < W64 ->
+  flag (snd p) cs = cs1 ++ (false, c) :: cs2 ->
+  flag (fst p) es = es1 ++ (false, e) :: es2 ->
+  length (en cs1) = length (en es1) ->
+  unrelated c e = true ->
+  exists d1 p1,
+    In (d1, p1) (argmins (scored es cs (phase1_cands es cs))) /\
+    In p (phase2_space es cs maxdist p1) /\
+    (nth (length es1) (fst p1) true = false ->
+     (p2_budget es maxdist <= hamming (fst p) (fst p1))%nat).
+Proof.
+  intros es cs maxdist d p cs1 c cs2 es1 e es2 H Hb Fc Fe HL HU.
+  pose proof (search_result_balanced _ _ _ _ _ H) as [L1 [L2 _]].
+  destruct (search_result_unrelated_pair_budget _ _ _ _ _ _ _ _ _ _ _ H Hb Fc Fe HL HU) as [d1 [p1 [H1 [H2 H3]]]].
+  exists d1, p1. split; [exact H1|]. split; [exact H2|]. intro Ne. apply H3; [exact Ne|].
+  destruct p as [pe pc]. apply (phase2_keeps_first_phase _ _ _ _ _ _ (length cs1) H2).
+  cbn [snd] in *. rewrite <- (map_fst_flag _ pc cs L2), Fc.
+  change (map fst (cs1 ++ (false, c) :: cs2)) with (bm_of (cs1 ++ (false, c) :: cs2)).
+  rewrite bm_of_app_cons. rewrite app_nth2; unfold bm_of; rewrite map_length; [|lia].
+  rewrite Nat.sub_diag. reflexivity.
+Qed.
